@@ -276,6 +276,8 @@ type vdDriver struct {
 	credCache  map[string][3]string
 	tagCache   map[string]string
 	evals      int
+	boundary   map[string][]*vdSecret
+	bEvals     int // evaluations on secrets at the edges of the port draw's rejection sampling
 	msgViews   int // evaluations that were also derived through parseRegMessage (dual-stack message)
 	mism       int
 	classes    map[string]bool
@@ -1089,6 +1091,65 @@ func (d *vdDriver) eval(w *vdWorld, sec *vdSecret, fam int, tu0 *vdLine) {
 	}
 }
 
+// vdBoundarySecrets searches secrets whose FIRST draw of the seeded destination-port stream falls on the edges of the
+// rejection sampling that Derive.tla's randint draw denotes (n = hi - lo): n-1 (the largest value accepted), n (the smallest
+// value rejected: the next draw decides), n+1 and 65535.  Uniform secrets hit these with probability 2^-16 each; the
+// published algorithm of the client libraries in the field is defined on them all the same.
+func (d *vdDriver) vdBoundarySecrets(tu *vdLine) []*vdSecret {
+	var port *vdDraw
+	reads := []vdDraw{}
+	for i := range tu.Draws {
+		dr := tu.Draws[i]
+		if dr.Op == "read" && port == nil {
+			reads = append(reads, dr)
+		}
+		if dr.Op == "randint" && dr.Use == "port" {
+			port = &tu.Draws[i]
+		}
+	}
+	if port == nil {
+		return nil
+	}
+	key := fmt.Sprintf("%s|%v|%s|%d|%d", tu.Salt, reads, port.Label, port.Lo, port.Hi)
+	if d.boundary == nil {
+		d.boundary = map[string][]*vdSecret{}
+	}
+	if v, ok := d.boundary[key]; ok {
+		return v
+	}
+	n := port.Hi - port.Lo
+	want := map[int64]string{n - 1: "max-accepted", n: "min-rejected", n + 1: "rejected+1", 65535: "ffff"}
+	var out []*vdSecret
+	for i := 0; i < 3000000 && len(want) > 0; i++ {
+		h := sha256.Sum256([]byte(fmt.Sprintf("boundary-secret-%d", i)))
+		main := vdNewHKDF(h[:], []byte(tu.Salt), nil)
+		var seed []byte
+		for _, dr := range reads {
+			b := make([]byte, dr.Len)
+			if _, err := io.ReadFull(main, b); err != nil {
+				return nil
+			}
+			if dr.Use == "seed" {
+				seed = b
+			}
+		}
+		if seed == nil {
+			return nil
+		}
+		var two [2]byte
+		if _, err := io.ReadFull(vdNewHKDF(seed, nil, []byte(port.Label)), two[:]); err != nil {
+			return nil
+		}
+		v := int64(two[0])<<8 | int64(two[1])
+		if cls, ok := want[v]; ok {
+			delete(want, v)
+			out = append(out, &vdSecret{name: fmt.Sprintf("b:%s:%d", cls, i), secret: append([]byte(nil), h[:]...)})
+		}
+	}
+	d.boundary[key] = out
+	return out
+}
+
 func mustHex(s string) []byte {
 	b, _ := hex.DecodeString(s)
 	return b
@@ -1118,6 +1179,9 @@ func TestVerifDerive(t *testing.T) {
 		w.golden = true
 	}
 	d.worlds = append(d.worlds, gw...)
+	// every subnet grants port randomisation: the seeded port draw is used by every registration that asks for it
+	allRand := vdBuildWorld("allrand", []uint32{1}, []bool{true}, [][]string{{"10.50.0.0/16", "2001:db8:50::/48"}})
+	d.worlds = append(d.worlds, allRand)
 	for i := 0; i < ngen; i++ {
 		d.worlds = append(d.worlds, vdGenWorld(rng, i))
 	}
@@ -1160,7 +1224,25 @@ func TestVerifDerive(t *testing.T) {
 			}
 		}
 	}
-	d.out.Emit(map[string]any{"kind": "summary", "msg_views": d.msgViews, "evaluations": d.evals, "mismatches": d.mism, "classes": len(d.classes), "tuples": napp,
+	// the edges of the port draw (Derive.tla: randint = rejection sampling): for every tuple that draws a port, secrets whose first
+	// draw is the largest accepted value, the smallest rejected one, one more, and 0xffff
+	for _, tu := range d.tupleOrder {
+		if tu.Sr || !tu.Applicable {
+			continue
+		}
+		tsr := d.tuples[vdTupleKey(tu.Lv, tu.Tr, tu.Pc, tu.Pid, true, tu.Ov)]
+		if tsr == nil {
+			continue
+		}
+		for _, bs := range d.vdBoundarySecrets(tsr) {
+			for _, fam := range []int{4, 6} {
+				before := d.evals
+				d.eval(allRand, bs, fam, tu)
+				d.bEvals += d.evals - before
+			}
+		}
+	}
+	d.out.Emit(map[string]any{"kind": "summary", "boundary_evals": d.bEvals, "msg_views": d.msgViews, "evaluations": d.evals, "mismatches": d.mism, "classes": len(d.classes), "tuples": napp,
 		"tuples_not_applicable": nskip, "worlds": len(d.worlds), "secrets": len(secrets), "skipped": d.skipped, "mismatch_fields": d.fields})
 	d.out.Emit(map[string]any{"kind": "end"})
 }
